@@ -142,7 +142,8 @@ def apply_op(sim, world: World, op, plan=None, form=None):
                 if how == 2 and spec is not None:
                     # (the way formulas-outside-formulas are written: simulation.household("rent", period))
                     return _guard(lambda: getattr(sim, spec["entity"])(op[1], per))
-                if how == 3:
+                if how == 3 and not (spec or {}).get("calculate_output"):
+                    # (a variable without a calculate_output helper: plain calculate)
                     return _guard(lambda: sim.calculate_output(op[1], per))
                 return _guard(lambda: sim.calculate(op[1], per))
             if kind in ("calculate_add", "calculate_divide"):
@@ -170,12 +171,26 @@ def apply_op(sim, world: World, op, plan=None, form=None):
     raise ValueError(op)
 
 
+class GeneratedCodeBug(BaseException):
+    """A generated formula failed in its *own* text (a name, attribute or type error raised
+    by a line of the generated module, not by the engine or an injected fault): the world
+    generator or compiler is wrong.  A harness error, never an outcome."""
+
+
 def _guard(fn):
     try:
         return ("ok", fn())
     except RunTooBig:
         raise
     except Exception as e:  # noqa: BLE001
+        if isinstance(e, (AttributeError, NameError, TypeError, IndexError, KeyError, SyntaxError, UnboundLocalError)) and not isinstance(e, RecursionError):
+            tb = e.__traceback__
+            last = None
+            while tb is not None:
+                last = tb
+                tb = tb.tb_next
+            if last is not None and last.tb_frame.f_code.co_filename.startswith("<dsim-world-"):
+                raise GeneratedCodeBug(f"{type(e).__name__}: {e} at line {last.tb_lineno} of {last.tb_frame.f_code.co_filename}") from e
         return ("exc", e)
 
 
